@@ -9,6 +9,9 @@ Line protocol, additions for the method-level model of C14 (everything else: Hol
   (cases STATE ID RULE TH1 TH2 CONCL T|F T|F) -> (ok STATE) | (error KIND)
   (advertised ((ITEM T|F) ...))          -> (TH ...)
   (intro STATE ID (ITEM ...))            -> (ok STATE) | (error KIND)     introduction.apply
+  (forwardclose STATE ID RULE (ID ...) TH) -> (ok STATE) | (error KIND)   rewrite_fact / rewrite_fact_with_prev / apply_forward_step
+  (searchfilter N GF GI GE FF FE)        -> (T|F T|F T|F T|F)   introduction exists_elim forall_elim inst_exists_goal suggested?
+  (applicable RULE N GF GI GE FF FE)     -> (T|F T|F T|F)   introduction exists_elim inst_exists_goal: first tests of `apply` pass?
   (revert STATE ID FACT TH RA RI)        -> (ok STATE) | (error KIND)     revert_intro.apply (RA/RI: rule codes of assume/intros)
   (roundtrip STATE)                      -> (ok STATE) | (error KIND)     importLines [] (exportLines STATE)
   (import ((ID RULE (ID ...) TH) ...))   -> (ok STATE) | (error KIND)
@@ -35,6 +38,24 @@ def handle (line : String) : String :=
     match stateOf st, idOf i, idOf f, thOf t, ra.toNat?, ri.toNat? with
     | some s, some i, some f, some t, some ra, some ri => resTo (revertIntroM s i f t ra ri)
     | _, _, _, _, _, _ => "bad-op"
+  | some (.list [.atom "forwardclose", st, i, r, p, t]) =>
+    match stateOf st, idOf i, r.toNat?, idsOf p, thOf t with
+    | some s, some i, some r, some p, some t => resTo (forwardCloseM s i r p t)
+    | _, _, _, _, _ => "bad-op"
+  | some (.list [.atom "searchfilter", n, gf, gi, ge, ff, fe]) =>
+    match n.toNat?, gf.toBool?, gi.toBool?, ge.toBool?, ff.toBool?, fe.toBool? with
+    | some n, some gf, some gi, some ge, some ff, some fe =>
+      let c : Sel := ⟨n, gf, gi, ge, ff, fe⟩
+      toString (Sexp.list [Sexp.ofBool (searchIntroduction c), Sexp.ofBool (searchExistsElim c),
+        Sexp.ofBool (searchForallElim c), Sexp.ofBool (searchInstExistsGoal c)])
+    | _, _, _, _, _, _ => "bad-op"
+  | some (.list [.atom "applicable", r, n, gf, gi, ge, ff, fe]) =>
+    match r.toNat?, n.toNat?, gf.toBool?, gi.toBool?, ge.toBool?, ff.toBool?, fe.toBool? with
+    | some r, some n, some gf, some gi, some ge, some ff, some fe =>
+      let c : Sel := ⟨n, gf, gi, ge, ff, fe⟩
+      toString (Sexp.list [Sexp.ofBool (applicableIntroduction r c), Sexp.ofBool (applicableExistsElim r c),
+        Sexp.ofBool (applicableInstExistsGoal r c)])
+    | _, _, _, _, _, _, _ => "bad-op"
   | some (.list [.atom "intro", st, i, sub]) =>
     match stateOf st, idOf i, stateOf sub with
     | some s, some i, some sub => resTo (introM s i sub)
